@@ -18,3 +18,8 @@ def run(ctx, rep):
     more.rule_meminit_refact(mod, rep)
     from ..rules import more2
     more2.rule_stack_pop(mod, rep)
+    import re
+    from ..rules import more2
+    more2.rule_arg_names(mod, rep, lambda f: re.match(r"p[sdcz]gstrf_MemInit|p[sdcz]gstrf_expand|p[sdcz]gstrf_WorkInit|p[sdcz]gstrf_thread_init|p[sdcz]gssvx$|p[sdcz]gstrf$", f.name) is not None, floor=1)
+    from ..rules import more3
+    more3.rule_work_zero(mod, rep)
